@@ -106,4 +106,5 @@ Definition entry_run_abs (x : sx) : sx :=
   let fsx := as_list (arg 2 x) in
   let fs := map as_frame fsx in
   if existsb (fun f => old_has_bad (arg 0 f)) fsx || negb (valid_framesb 0 fs) then L []
-  else L [L (map (fun s => L [of_state s; L (map of_feat (abs s))]) (run_trace (fresh H A) fs))].
+  else L [L (map (fun s => L [of_state s; L (map of_feat (abs s)); L (map of_vec (predicted_state_vec s));
+                              L (map of_vec (predicted_obs_vec s))]) (run_trace (fresh H A) fs))].
